@@ -20,9 +20,11 @@
 //! rule (`model`) gives, per script, the expected number of attempts, the delay
 //! class before every attempt and the way the client must end.  Lower bounds on gaps
 //! hold by causality (they are anchored at timestamps the server took *before* it
-//! caused the failure) and count at once; everything that depends on the machine
-//! being fast enough (upper bounds, "no attempt within ...", deadlines) is only a
-//! suspicion until the same scenario shows it again alone on the machine.
+//! caused the failure); upper bounds, "no attempt within ..." and deadlines depend on
+//! the machine being fast enough.  Because a stall of more than the 1 s handshake
+//! timeout on a loaded machine can misalign script and client, *every* finding of the
+//! parallel pass is only a suspicion until the same scenario shows it again when it
+//! runs alone on the machine.
 //!
 //! Level: exploration.  The scenario matrix is enumerated completely, one execution
 //! per point; interleavings are whatever the runtime and the kernel produce.
@@ -286,7 +288,7 @@ fn sequences(alpha: &[Beh], max_len: usize) -> Vec<Vec<Beh>> {
 }
 
 struct Bounds {
-    /// max script length for scripts ending in healthy / http404 (give-up scripts may be one longer)
+    /// max script length (give-up scripts of pre-connect failures only may be one longer)
     len: usize,
     counts: Vec<u32>,
     caps: Vec<u64>,
@@ -302,7 +304,9 @@ fn build_matrix(thorough: bool) -> (Vec<Scenario>, Bounds) {
             for s in sequences(&alpha_a, b.len + 1) {
                 let Some(steps) = model(&s, n, cap) else { continue };
                 let give_up = steps.last().is_some_and(|x| x.end == Some(End::GiveUp));
-                if s.len() <= b.len || (give_up && s.len() <= b.len + 1) {
+                // give-up scripts made of pre-connect failures only may be one longer, so that
+                // the largest max_retry_count can be exhausted at all
+                if s.len() <= b.len || (give_up && s.len() <= b.len + 1 && !s.iter().any(|x| x.connects())) {
                     v.push(Scenario { kind: Kind::Script, family: "A-counts-delays", script: s, n, cap_ms: cap, down_at: None, outage_ms: 0 });
                 }
             }
@@ -325,7 +329,7 @@ fn build_matrix(thorough: bool) -> (Vec<Scenario>, Bounds) {
         // the stream-request-timeout path also counts as a lost connection in give-up scripts
         if has_mute {
             for n in [1u32, 2] {
-                if model(&s, n, 300).is_some_and(|st| st.last().is_some_and(|x| x.end == Some(End::GiveUp))) && (thorough || n == 1) {
+                if s.len() <= b.len && model(&s, n, 300).is_some_and(|st| st.last().is_some_and(|x| x.end == Some(End::GiveUp))) {
                     v.push(Scenario { kind: Kind::Script, family: "B-pending-local", script: s.clone(), n, cap_ms: 300, down_at: None, outage_ms: 0 });
                 }
             }
@@ -342,6 +346,13 @@ fn build_matrix(thorough: bool) -> (Vec<Scenario>, Bounds) {
                     v.push(Scenario { kind: Kind::Script, family: "C-reset-after-success", script: vec![f1, f2, s, Beh::Healthy], n, cap_ms: 300_000, down_at: None, outage_ms: 0 });
                 }
             }
+        }
+    }
+    // ... and so does the count of consecutive failed retries (max_retry_count = 1: one failure
+    // before and one loss after a successful connection must not add up)
+    for &f in fails {
+        for &s in succ {
+            v.push(Scenario { kind: Kind::Script, family: "C-reset-after-success", script: vec![f, s, Beh::Healthy], n: 1, cap_ms: 300, down_at: None, outage_ms: 0 });
         }
     }
     if thorough {
@@ -424,6 +435,8 @@ struct Exec {
     machinery: Option<String>,
     listen_ms: Option<f64>,
     wall_ms: f64,
+    /// smallest (accept time - lower bound) over the checked gaps: how tight the lower bound was
+    min_slack_ms: Option<f64>,
 }
 
 impl Exec {
@@ -444,6 +457,7 @@ impl Exec {
             machinery: None,
             listen_ms: None,
             wall_ms: 0.0,
+            min_slack_ms: None,
         }
     }
     fn find(&mut self, key: impl Into<String>, desc: impl Into<String>, load_sensitive: bool) {
@@ -683,7 +697,7 @@ fn judge_script(ex: &mut Exec, steps: &[Step]) {
         let due = steps[q.after_attempt].delay_ms.unwrap_or(0);
         if q.attempt_after_nudge_ms.is_some() {
             ex.find(
-                format!("reconnect.after-{}.waits-for-local-traffic", q.beh.class()),
+                format!("reconnect.after-{}", q.beh.class()),
                 format!("after attempt {} ({}) the connection was lost and a new attempt was due after {due} ms, but none was made for {} ms while no local connection was pending; {what}. {ctx}", q.after_attempt, q.beh.name(), q.silent_ms),
                 true,
             );
@@ -755,6 +769,23 @@ fn judge_script(ex: &mut Exec, steps: &[Step]) {
         }
     }
 
+    // ---- "gives up once ... have failed", "ends the client at once": no further delay
+    if ex.completed && seen == len {
+        if let (Some(c), Some(a)) = (&end, att.last()) {
+            let up = match sc.script[len - 1] {
+                Beh::Reset | Beh::Http404 => a.act_after_ms,
+                Beh::Stall => Some(a.accept_ms + HS_TIMEOUT_MS as f64),
+                _ => None,
+            };
+            if let Some(up) = up {
+                if c.class != "panic" && c.t_ms > up + 1000.0 {
+                    let key = if steps[len - 1].end == Some(End::NonRetryable) { "nonretryable.not-at-once".to_string() } else { format!("giveup.late.n{}", sc.n) };
+                    ex.find(key, format!("the last failure was noticed by {up:.0} ms at the latest, but the client ended only at {:.0} ms; {ctx}", c.t_ms), true);
+                }
+            }
+        }
+    }
+
     // ---- local connections (only where the statement promises service: the healthy connection was reached)
     if ex.completed && steps[len - 1].end == Some(End::Stays) && end.is_none() {
         judge_locals(ex, &ctx);
@@ -769,6 +800,10 @@ fn judge_script(ex: &mut Exec, steps: &[Step]) {
             let d = st.delay_ms.unwrap_or(0) as f64;
             lb = lo + d;
             let cls = format!("k{}{}", st.k, if pb.connects() { ".after-success" } else { "" });
+            if q.is_none() {
+                let slack = a.accept_ms - lb;
+                ex.min_slack_ms = Some(ex.min_slack_ms.map_or(slack, |m: f64| m.min(slack)));
+            }
             if a.accept_ms < lb - TOL_MS {
                 ex.find(
                     format!("backoff.too-early.{cls}"),
@@ -1033,7 +1068,7 @@ fn replay(args: &Args, v: &Value, mut rep: Report) -> Report {
 #[allow(clippy::too_many_lines)]
 pub fn run(args: &Args) -> Report {
     let mut rep = Report::new("C19", &args.tier, "e2e", "exploration");
-    rep.rule = "one execution of the real client_main_inner per point of the scenario matrix (server-behaviour script x max_retry_count x max_retry_interval x local-connection placement), every point executed; a point is non-trivial/distinct when its scenario record is distinct; violations that depend on the speed of the machine count only when the scenario shows them again alone on the machine".into();
+    rep.rule = "one execution of the real client_main_inner per point of the scenario matrix (server-behaviour script x max_retry_count x max_retry_interval x local-connection placement), every point executed; a point is non-trivial/distinct when its scenario record is distinct; a finding counts only when a scenario that showed it in the parallel pass shows it again when run alone on the machine (one scenario per key is re-run, smallest first)".into();
     std::panic::set_hook(Box::new(|_| {}));
     if let Some(v) = args.replay_json() {
         return replay(args, &v, rep);
@@ -1071,66 +1106,54 @@ pub fn run(args: &Args) -> Report {
     });
     let phase1_s = t1.elapsed().as_secs_f64();
 
-    // ---- phase 2: suspicions are re-run alone
+    // ---- phase 2: nothing counts before the scenario has shown it again alone on the machine.
+    // One scenario per key is re-run (the smallest first; the next one if it does not
+    // reproduce); findings that do not depend on the speed of the machine get two tries.
     let t2 = Instant::now();
     let budget = Duration::from_secs(if thorough { 300 } else { 25 });
     let mut suspects: BTreeMap<String, Vec<usize>> = BTreeMap::new();
+    let mut sensitive: BTreeMap<String, bool> = BTreeMap::new();
     for (i, e) in execs.iter().enumerate() {
-        for f in e.findings.iter().filter(|f| f.load_sensitive) {
+        for f in &e.findings {
             suspects.entry(f.key.clone()).or_default().push(i);
+            sensitive.insert(f.key.clone(), f.load_sensitive);
         }
     }
     for v in suspects.values_mut() {
-        v.sort_by_key(|&i| (execs[i].sc.script.len(), execs[i].sc.estimate_ms(), i));
+        v.sort_by_key(|&i| (execs[i].sc.script.len(), execs[i].sc.script.last() != Some(&Beh::Healthy), execs[i].sc.estimate_ms(), i));
     }
     let mut confirmed: BTreeMap<String, (usize, Exec)> = BTreeMap::new();
     let mut refuted: Vec<Value> = Vec::new();
     let mut unresolved: Vec<String> = Vec::new();
-    let mut iso_cache: BTreeMap<usize, Exec> = BTreeMap::new();
-    let mut iso_extra: Vec<Value> = Vec::new();
+    let mut iso_runs: BTreeMap<usize, Vec<Exec>> = BTreeMap::new();
     for (key, idxs) in &suspects {
-        for &i in idxs {
-            if confirmed.contains_key(key) {
-                break;
-            }
-            if !iso_cache.contains_key(&i) {
-                if t2.elapsed() > budget {
-                    unresolved.push(format!("{key}: {}", execs[i].sc.short()));
-                    continue;
+        let tries = if sensitive[key] { 1 } else { 2 };
+        'scenarios: for &i in idxs {
+            for t in 0..tries {
+                if iso_runs.get(&i).map_or(0, Vec::len) <= t {
+                    if t2.elapsed() > budget {
+                        unresolved.push(format!("{key}: {}", execs[i].sc.short()));
+                        continue 'scenarios;
+                    }
+                    let e = rt.block_on(exec(&execs[i].sc, true, &counter));
+                    iso_runs.entry(i).or_default().push(e);
                 }
-                let e = rt.block_on(exec(&execs[i].sc, true, &counter));
-                iso_cache.insert(i, e);
+                let e = &iso_runs[&i][t];
+                if e.machinery.is_some() {
+                    unresolved.push(format!("{key}: {} ({})", execs[i].sc.short(), e.machinery.clone().unwrap_or_default()));
+                    continue 'scenarios;
+                }
+                if e.findings.iter().any(|f| &f.key == key) {
+                    confirmed.insert(key.clone(), (i, e.clone()));
+                    break 'scenarios;
+                }
             }
-            let e = &iso_cache[&i];
-            if e.machinery.is_some() {
-                unresolved.push(format!("{key}: {} ({})", execs[i].sc.short(), e.machinery.clone().unwrap_or_default()));
-            } else if e.findings.iter().any(|f| &f.key == key) {
-                confirmed.insert(key.clone(), (i, e.clone()));
-            } else {
-                refuted.push(json!({"key": key, "scenario": execs[i].sc.to_json(), "first_run": execs[i].observation(), "alone": e.observation()}));
-            }
-        }
-    }
-    // definitive findings seen only in an isolated re-run count too
-    for (i, e) in &iso_cache {
-        for f in e.findings.iter().filter(|f| !f.load_sensitive) {
-            if !execs[*i].findings.iter().any(|g| g.key == f.key) {
-                iso_extra.push(json!({"key": f.key, "scenario": e.sc.to_json()}));
-                execs[*i].findings.push(f.clone());
-            }
+            refuted.push(json!({"key": key, "speed_dependent": sensitive[key], "scenario": execs[i].sc.to_json(), "first_run": execs[i].observation(), "alone": iso_runs[&i].iter().map(Exec::observation).collect::<Vec<_>>()}));
         }
     }
     let phase2_s = t2.elapsed().as_secs_f64();
 
     // ---- verdicts
-    let mut order: Vec<usize> = (0..execs.len()).collect();
-    order.sort_by_key(|&i| (execs[i].sc.script.len(), execs[i].sc.estimate_ms(), i));
-    for &i in &order {
-        let e = &execs[i];
-        for f in e.findings.iter().filter(|f| !f.load_sensitive) {
-            rep.violation(f.key.clone(), f.desc.clone(), e.sc.to_json());
-        }
-    }
     for (key, (i, iso)) in &confirmed {
         let n = suspects[key].len() as u64;
         let f = iso.findings.iter().find(|f| &f.key == key).expect("confirmed finding");
@@ -1148,7 +1171,7 @@ pub fn run(args: &Args) -> Report {
     }
     rep.bounds.insert("scenarios".into(), json!(matrix.len()));
     rep.bounds.insert("scenarios_per_family".into(), json!(fam));
-    rep.bounds.insert("script_len_max".into(), json!({"ending_in_healthy_or_404": bounds.len, "ending_in_give_up": bounds.len + 1, "family_C": if thorough { 5 } else { 4 }}));
+    rep.bounds.insert("script_len_max".into(), json!({"families_A_B": bounds.len, "give_up_by_preconnect_failures_only": bounds.len + 1, "family_C": if thorough { 5 } else { 4 }}));
     rep.bounds.insert("behaviours".into(), json!(["reset", "stall", "http404", "close0", "close300", "drop", "mute", "healthy", "(really refusing port: family D)"]));
     rep.bounds.insert("max_retry_count".into(), json!(bounds.counts));
     rep.bounds.insert("max_retry_interval_ms".into(), json!(bounds.caps));
@@ -1171,11 +1194,13 @@ pub fn run(args: &Args) -> Report {
     rep.extra.insert("connection_attempts_observed".into(), json!(attempts_total));
     rep.extra.insert("phase1_wall_s".into(), json!(phase1_s));
     rep.extra.insert("phase2_wall_s".into(), json!(phase2_s));
+    let slack = execs.iter().filter_map(|e| e.min_slack_ms).fold(f64::INFINITY, f64::min);
+    rep.extra.insert("smallest_margin_over_a_lower_bound_ms".into(), json!(if slack.is_finite() { Some((slack * 100.0).round() / 100.0) } else { None }));
+    rep.extra.insert("gaps_checked_against_lower_bound".into(), json!(execs.iter().filter(|e| e.min_slack_ms.is_some()).count()));
     rep.extra.insert("suspicions".into(), json!(suspects.iter().map(|(k, v)| (k.clone(), v.len())).collect::<BTreeMap<_, _>>()));
     rep.extra.insert("suspicions_confirmed_alone".into(), json!(confirmed.keys().collect::<Vec<_>>()));
     rep.extra.insert("suspicions_not_reproduced_alone".into(), json!(refuted.len()));
     rep.extra.insert("suspicions_not_reproduced_detail".into(), json!(refuted.iter().take(4).collect::<Vec<_>>()));
-    rep.extra.insert("definitive_findings_seen_only_alone".into(), json!(iso_extra));
     rep.extra.insert("harness_retries_exhausted".into(), json!(machinery));
     rep.extra.insert("build_profile".into(), json!(if cfg!(debug_assertions) { "checked" } else { "release" }));
     for (_, (_, iso)) in confirmed.iter().take(2) {
